@@ -31,11 +31,16 @@ func newWorld(mut func(*op.Config)) (*opdrv.World, map[string]*vclient.Client) {
 
 // newWorldFn is newWorld with an issuer strategy (nil = the static default issuer).
 func newWorldFn(mut func(*op.Config), issuerFn func(bool) (op.IssuerFromRequest, error)) (*opdrv.World, map[string]*vclient.Client) {
+	return newWorldOpt(mut, issuerFn, nil)
+}
+
+// newWorldOpt is newWorldFn with an application-defined provider in front of both routers (nil = the stock Provider).
+func newWorldOpt(mut func(*op.Config), issuerFn func(bool) (op.IssuerFromRequest, error), wrap func(*op.Provider) op.OpenIDProvider) (*opdrv.World, map[string]*vclient.Client) {
 	cfg := opdrv.DefaultConfig()
 	if mut != nil {
 		mut(&cfg)
 	}
-	w := opdrv.MustWorld(opdrv.Options{Config: cfg, Caps: vstore.Full, IssuerFn: issuerFn})
+	w := opdrv.MustWorld(opdrv.Options{Config: cfg, Caps: vstore.Full, IssuerFn: issuerFn, WrapProvider: wrap})
 	cl := map[string]*vclient.Client{}
 	add := func(id, secret string, auth oidc.AuthMethod) {
 		c := vclient.Confidential(id, secret, redirectsOf(id)...)
@@ -56,6 +61,12 @@ func newWorldFn(mut func(*op.Config), issuerFn func(bool) (op.IssuerFromRequest,
 }
 
 func providerSettings(w *opdrv.World) vSettings {
+	// a world built around an application-defined provider (custom.go) has the settings of that provider's verifier
+	if x, ok := worldSettings.Load(w.Store); ok {
+		vs := x.(vSettings)
+		vs.Issuer = w.Issuer
+		return vs
+	}
 	// what op.Provider.JWTProfileVerifier configures: issuer of the request, max age 1 h, offset 1 s, subject = issuer
 	return vSettings{Issuer: w.Issuer, MaxAge: time.Hour, Offset: time.Second, SubCheck: "default", Ctor: "storage"}
 }
